@@ -638,7 +638,7 @@ impl<'h> Exec<'h> {
                     break;
                 }
                 guard += 1;
-                if !did || guard > 200 {
+                if !did || guard > stall_guard_limit() {
                     let ongoing = self
                         .store
                         .as_ref()
@@ -789,7 +789,7 @@ impl<'h> Exec<'h> {
                 .as_ref()
                 .map(|s| s.tree().verif_would_stall_ingest())
                 .unwrap_or(false);
-            if still && (!did || guard > 200) {
+            if still && (!did || guard > stall_guard_limit()) {
                 let shape = self.shape();
                 self.probes.hit("stalled_nothing_selectable");
                 if self.oracles.c20 {
@@ -1716,4 +1716,14 @@ impl<'h> Exec<'h> {
             steps: ex.steps,
         }
     }
+}
+
+/// How many consecutive units of compaction work may pass with ingest still stalled before the
+/// state is called "stalled, nothing relieves it".  Every unit is real progress (a table moved or
+/// merged), so the bound only has to exceed the longest legitimate chain: sinking every table of
+/// a full 16-level tree by trivial moves takes 15 units per table (the first bound, 200, was
+/// exceeded by two histories of the thorough sweep in which the stall did resolve after a few
+/// hundred units).  A state in which a unit does nothing while ingest is stalled is reported at once.
+fn stall_guard_limit() -> usize {
+    std::env::var("STORESIM_STALL_GUARD").ok().and_then(|s| s.parse().ok()).unwrap_or(10_000)
 }
